@@ -298,6 +298,9 @@ def scenario(ctx):
         server = RefSaslServer(accept, agree_fd=agree, keyring=kr if kstate != 'missing' else None,
                                urandom=lambda n: bytes((i * 37 + 11) & 0xff for i in range(n)))
         server.messy_keyring = bool(pre.get('messy', ds.flag(0.5)))
+        if 'accept' not in pre and ds.flag(0.3):
+            # context names may hold any ASCII but '/', '\\', '.', blanks and newlines
+            server.cookie_context = ds.pick([b'org-example-session', b'ctx@host+1', b'a~b:c'])
         if ds.flag(0.3):
             server.guid = b'00112233445566778899AABBCCDDEEFF'
         if ds.flag(0.2):
